@@ -19,6 +19,8 @@ import (
 	"net/http"
 	"os"
 	"path/filepath"
+	"strings"
+	"syscall"
 )
 
 import (
@@ -37,7 +39,14 @@ const (
 
 var (
 	errUnexpectedDir = errors.New("file type should not be dir")
+	errInvalidName   = errors.New("file name can not exist")
 )
+
+// isNotExist reports whether err means that the requested path does not (and
+// can not) denote an existing file.
+func isNotExist(err error) bool {
+	return os.IsNotExist(err) || err == errInvalidName || errors.Is(err, syscall.ENAMETOOLONG)
+}
 
 func ConvertEncodeToExt(encoding string) string {
 	switch encoding {
@@ -88,6 +97,10 @@ func newStaticFile(root string, filename string, encodingList []string, m *Modul
 
 	s.File, err = http.Dir(root).Open(filename)
 	if err != nil {
+		// a name with a NUL byte can not exist in the file system
+		if strings.IndexByte(filename, 0) >= 0 {
+			return nil, errInvalidName
+		}
 		return nil, err
 	}
 
